@@ -270,15 +270,24 @@ def gen_scenario(rng, U, alias, i, sign, complete=False):
             u['script'] = script
         utxos.append(u)
         return len(utxos) - 1
-    inputs.append(new_utxo(['k', some_hash()], 100000 * ADA, cred() if rng.random() < 0.3 else None))
+    def stake_part():
+        """nothing (enterprise), a key / script credential (base) or a chain pointer (pointer address): the payment key is
+        required whatever the delegation part says"""
+        m = rng.random()
+        if m < 0.45:
+            return None
+        if m < 0.8:
+            return cred()
+        return ['ptr', rng.choice([0, 1, 127, 128, 16384, 2 ** 32]), rng.choice([0, 2, 300]), rng.choice([0, 1, 200])]
+    inputs.append(new_utxo(['k', some_hash()], 100000 * ADA, stake_part() if rng.random() < 0.4 else None))
     if 'inputs' in want:
         for _ in range(rng.randint(1, 3)):
-            inputs.append(new_utxo(cred(0.65), rng.randint(2, 9) * ADA, cred() if rng.random() < 0.4 else None))
+            inputs.append(new_utxo(cred(0.65), rng.randint(2, 9) * ADA, stake_part()))
         if rng.random() < 0.3:                      # the same address twice
             inputs.append(new_utxo(utxos[inputs[-1]]['pay'], 3 * ADA))
     if 'collateral' in want:
         for _ in range(rng.randint(1, 3)):
-            collateral.append(new_utxo(cred(1.0 if sign else 0.7), 6 * ADA))
+            collateral.append(new_utxo(cred(1.0 if sign else 0.7), 6 * ADA, stake_part()))
     rs = [some_hash() for _ in range(rng.randint(1, 3))] if 'rs' in want else None
     native = ([gen_ns(rng, some_hash, rng.randint(1, 2 if sign else 4), 2 if sign else 3) for _ in range(1 if sign else rng.randint(1, 2))]
               if 'native' in want else None)
